@@ -166,6 +166,10 @@ func (w *world) close(h int) O {
 
 const watchdog = 4 * time.Second
 
+// closeWaitFailures: cases of this process in which a base stream was still not receive-closed
+// after the grace period; after a few of them the grace period is no longer paid.
+var closeWaitFailures atomic.Int32
+
 // closeRecvCounts: from the accounting log of package schema (hook schema/verif_c19_on.go,
 // build tag verif): for every base stream in creation order, how often its receive side was
 // closed (close(closed)).
@@ -422,7 +426,25 @@ func yield(r *lib.Rng) {
 	}
 }
 
+// runConc: a storm case (Reps > 1) is the same small tree driven Reps times with different
+// yield seeds; the first repetition whose direct oracle fails is the result, else the last one.
 func runConc(c *Case) lib.Result {
+	if c.Reps <= 1 {
+		return runConcOnce(c, c.Seed)
+	}
+	var res lib.Result
+	for k := 0; k < c.Reps; k++ {
+		res = runConcOnce(c, c.Seed+uint64(k)*7919)
+		if res.Oracle != "" {
+			res.Tags = append(res.Tags, "storm")
+			return res
+		}
+	}
+	res.Tags = append(res.Tags, "storm", fmt.Sprintf("storm-reps:%d", c.Reps))
+	return res
+}
+
+func runConcOnce(c *Case, seed uint64) lib.Result {
 	res := lib.Result{}
 	var out concObs
 	var oracle, sig string
@@ -489,7 +511,21 @@ func runConc(c *Case) lib.Result {
 	wh := make([]wHist, len(c.Writers))
 	var panics atomic.Int32
 	var wg sync.WaitGroup
-	root := lib.NewRng(c.Seed)
+	root := lib.NewRng(seed)
+	// barrier (storm cases): every leaf waits, for a bounded time, until all leaves are about to
+	// call Close, so that the closes of the copies of one stream hit the shared parent at the
+	// same instant; never blocks for good (a leaf that cannot arrive is not waited for)
+	var arrived, started atomic.Int32
+	spinUntilAll := func(cnt *atomic.Int32) {
+		if !c.Barrier {
+			return
+		}
+		cnt.Add(1)
+		t0 := time.Now()
+		for int(cnt.Load()) < len(c.Leaves) && time.Since(t0) < 400*time.Microsecond {
+		}
+	}
+	atBarrier := func() { spinUntilAll(&arrived) }
 	// no reader can ever receive more items than the sources it is derived from hold, counted
 	// along its derivation (a merge of the children of one copy receives the source's items
 	// once per merged child): a reader that goes beyond its own bound is cut off and reported
@@ -526,6 +562,7 @@ func runConc(c *Case) lib.Result {
 			h := &lh[i]
 			h.H = l.H
 			h.Got = []Item{}
+			spinUntilAll(&started) // storm cases: the first Recv of every copy at the same instant
 			for l.Max < 0 || len(h.Got) < l.Max {
 				yield(r)
 				o := classify(w.hs[l.H].Recv())
@@ -540,7 +577,11 @@ func runConc(c *Case) lib.Result {
 					break
 				}
 			}
-			yield(r)
+			if c.Barrier {
+				atBarrier()
+			} else {
+				yield(r)
+			}
 			w.hs[l.H].Close()
 		}(i, l)
 	}
@@ -631,10 +672,28 @@ func runConc(c *Case) lib.Result {
 	// every reader has been closed and every forwarder goroutine is gone: the receive side of
 	// every base stream (pipes, the streams of the forwarders, the stream a merge builds from
 	// its array arguments) has been closed exactly once
+	// (the forwarder goroutines close their sources on their way out: the goroutine count above
+	// is only a hint — a helper goroutine of the previous case may still have been counted in
+	// base — so the log itself is awaited, generously, before a missing close is reported)
+	allOnce := func(cs []int) bool {
+		for _, n := range cs {
+			if n != 1 {
+				return false
+			}
+		}
+		return true
+	}
+	if out.Leak == 0 && panics.Load() == 0 && closeWaitFailures.Load() < 5 {
+		deadline := time.Now().Add(2 * time.Second)
+		for !allOnce(closeRecvCounts(schema.VerifC19Snapshot())) && time.Now().Before(deadline) {
+			time.Sleep(200 * time.Microsecond)
+		}
+	}
 	out.RCl = closeRecvCounts(schema.VerifC19Stop())
 	if out.Leak == 0 && panics.Load() == 0 {
 		for k, n := range out.RCl {
 			if n != 1 {
+				closeWaitFailures.Add(1)
 				fail("source-close-count", fmt.Sprintf("every reader is closed, but the receive side of base stream %d (in creation order) was closed %d time(s)", k, n))
 				break
 			}
